@@ -22,25 +22,6 @@ theorem lineCount_spec (src : Src) (off : Nat) (h : off ≤ src.length) :
   simp [fin]
 
 
-/-- `file.Position` agrees with §7.3 wherever no lone <CR>, <LS> or <PS> precedes the offset. -/
-theorem position_lf (src : Src) (idx : Int) (h : Spec.cleanAt src (idx - 1) = true) :
-    filePosition src 1 idx = Spec.positionAt src (idx - 1) := by
-  unfold filePosition Spec.positionAt
-  by_cases hr : 0 ≤ idx - 1 ∧ idx - 1 < (src.length : Int)
-  · have hn : ¬ (idx - 1 ≥ (src.length : Int) ∨ idx - 1 < 0) := by omega
-    simp only [hn, hr, if_false]
-    simp only [Spec.cleanAt, hr] at h
-    have hlen : (src.take (idx - 1).toNat).length = (idx - 1).toNat := by
-      simp [List.length_take]; omega
-    have := walk_clean _ (src.take (idx - 1).toNat) (Nat.le_refl _) h 1 1
-    simp only [Spec.position, this, colLF, hlen]
-    cases hj : lastIndexLF (src.take (idx - 1).toNat) with
-    | some k => simp; omega
-    | none => simp; omega
-  · have hn : (idx - 1 ≥ (src.length : Int) ∨ idx - 1 < 0) := by omega
-    simp only [hn, hr, if_true, if_false]
-
-
 /-- a syntax error recorded by `(*parser).error(idx, …)` carries `p.position(idx)`: for every source and every
     offset in it this is the §7.3 line and column (all four line terminators, <CR><LF> counted once).
     (That the offset handed to `error` is the offending token's is established by the correspondence stream
@@ -48,13 +29,35 @@ theorem position_lf (src : Src) (idx : Int) (h : Spec.cleanAt src (idx - 1) = tr
 theorem syntax_error_position (src : Src) (off : Nat) (h : off ≤ src.length) :
     parserPosition src off = Spec.walk (src.take off) 0 1 1 := lineCount_spec src off h
 
+/-- `file.Position` (which locates every run-time stack frame) agrees with §7.3 on every source and every idx:
+    all four line terminators, <CR><LF> once; idx outside the source ↦ nil on both sides. -/
+theorem position_spec (src : Src) (idx : Int) :
+    filePosition src 1 idx = Spec.positionAt src (idx - 1) := by
+  unfold filePosition Spec.positionAt
+  by_cases hr : 0 ≤ idx - 1 ∧ idx - 1 < (src.length : Int)
+  · have hn : ¬ (idx - 1 ≥ (src.length : Int) ∨ idx - 1 < 0) := by omega
+    simp only [hn, hr, if_false]
+    have hlen : (src.take (idx - 1).toNat).length = (idx - 1).toNat := by
+      simp [List.length_take]; omega
+    have := fp_sim (src.take (idx - 1).toNat) 0 0 (-1) 0 (by omega) (by omega) (by omega) (by omega)
+    have hc : colAt (0 + 0) (-1) = 1 := by decide
+    rw [hc] at this
+    simp only [Nat.zero_add, hlen] at this
+    simp only [Spec.position, ← this, finF, if_true]
+    rfl
+  · have hn : (idx - 1 ≥ (src.length : Int) ∨ idx - 1 < 0) := by omega
+    simp only [hn, hr, if_true, if_false]
 
-/-- Dev `position_cr`: after a lone <CR> (or <LS>/<PS>) `file.Position` stays on the old line. -/
-example : Spec.cleanAt [0x61, 13, 0x62] 2 = false ∧
-    filePosition [0x61, 13, 0x62] 1 3 ≠ Spec.positionAt [0x61, 13, 0x62] 2 := by decide
-example : filePosition [0xE2, 0x80, 0xA8, 0x62] 1 4 = some (1, 4) ∧ Spec.positionAt [0xE2, 0x80, 0xA8, 0x62] 3 = some (2, 1) := by decide
-/-- non-vacuity: <CR><LF> line ends are inside the proved region -/
-example : Spec.cleanAt [0x61, 13, 10, 0x62, 10, 0x63] 5 = true ∧ filePosition [0x61, 13, 10, 0x62, 10, 0x63] 1 6 = some (3, 1) := by decide
+/-- the two position functions of otto now agree with each other (run-time frames vs. syntax errors) -/
+theorem positions_agree (src : Src) (off : Nat) (h : off < src.length) :
+    filePosition src 1 ((off : Int) + 1) = some (parserPosition src off) := by
+  rw [position_spec, lineCount_spec src off (by omega)]
+  have : (0 : Int) ≤ (off : Int) + 1 - 1 ∧ (off : Int) + 1 - 1 < (src.length : Int) := by omega
+  simp [Spec.positionAt, h]
+
+/-- lone <CR>, <LS>, <CR><LF> -/
+example : filePosition [0x61, 13, 0x62] 1 3 = some (2, 1) ∧ filePosition [0xE2, 0x80, 0xA8, 0x62] 1 4 = some (2, 1) ∧
+    filePosition [0x61, 13, 10, 0x62, 10, 0x63] 1 6 = some (3, 1) := by decide
 
 /-! ## stack traces -/
 
@@ -67,43 +70,42 @@ def FileOK (f : Frame) (fl : Nat) : Prop := f.file = if f.native then none else 
 theorem setTopOffset_cons (o : Int) (f : Frame) (r : Stack) :
     setTopOffset o (f :: r) = { f with offset := o } :: r := rfl
 
-theorem runPre_noEval (pre : List Pre) : ∀ (f : Frame) (rest : Stack), Spec.hasEval pre = false →
+/-- completed statements (calls, direct evals) leave nothing behind in the frame but an offset -/
+theorem runPre_shape (pre : List Pre) : ∀ (f : Frame) (rest : Stack),
     ∃ o, runPre pre (f :: rest) = { f with offset := o } :: rest := by
   induction pre with
-  | nil => intro f rest _; exact ⟨f.offset, rfl⟩
+  | nil => intro f rest; exact ⟨f.offset, rfl⟩
   | cons p ps ih =>
-    intro f rest h
+    intro f rest
     cases p with
     | doneCall fm off =>
-      have h' : Spec.hasEval ps = false := by simpa [Spec.hasEval] using h
-      obtain ⟨o, ho⟩ := ih { f with offset := atvOf fm off } rest h'
+      obtain ⟨o, ho⟩ := ih { f with offset := atvOf fm off } rest
       exact ⟨o, by simp [runPre, setTopOffset, ho]⟩
-    | directEval off k => simp [Spec.hasEval] at h
+    | directEval off k =>
+      obtain ⟨o, ho⟩ := ih { f with offset := off } rest
+      exact ⟨o, by simp [runPre, setTopOffset, ho]⟩
 
-/- Evaluating an argument list – calls nested in arguments to any depth – touches nothing but the offset of
-   the calling frame (no direct eval among the arguments). -/
+/- Evaluating an argument list – calls, `new` and direct evals nested in arguments to any depth – touches nothing
+   but the offset of the calling frame. -/
 mutual
-theorem evalArg_noEval : ∀ (a : Arg) (f : Frame) (rest : Stack), Spec.argHasEval a = false →
+theorem evalArg_shape : ∀ (a : Arg) (f : Frame) (rest : Stack),
     ∃ o, evalArg a (f :: rest) = { f with offset := o } :: rest
-  | .lit, f, rest, _ => ⟨f.offset, rfl⟩
-  | .call fm off as, f, rest, h => by
-    obtain ⟨o, ho⟩ := evalArgs_noEval as f rest (by simpa [Spec.argHasEval] using h)
+  | .lit, f, rest => ⟨f.offset, rfl⟩
+  | .call fm off as, f, rest => by
+    obtain ⟨o, ho⟩ := evalArgs_shape as f rest
     exact ⟨atvOf fm off, by simp [evalArg, ho, setTopOffset]⟩
-  | .evalDirect _ _, _, _, h => by simp [Spec.argHasEval] at h
-theorem evalArgs_noEval : ∀ (as : Args) (f : Frame) (rest : Stack), Spec.argsHasEval as = false →
+  | .evalDirect off _, f, rest => ⟨off, by simp [evalArg, setTopOffset]⟩
+theorem evalArgs_shape : ∀ (as : Args) (f : Frame) (rest : Stack),
     ∃ o, evalArgs as (f :: rest) = { f with offset := o } :: rest
-  | .nil, f, rest, _ => ⟨f.offset, rfl⟩
-  | .cons a r, f, rest, h => by
-    have h' : Spec.argHasEval a = false ∧ Spec.argsHasEval r = false := by
-      simpa [Spec.argsHasEval] using h
-    obtain ⟨o, ho⟩ := evalArg_noEval a f rest h'.1
-    obtain ⟨o2, ho2⟩ := evalArgs_noEval r { f with offset := o } rest h'.2
+  | .nil, f, rest => ⟨f.offset, rfl⟩
+  | .cons a r, f, rest => by
+    obtain ⟨o, ho⟩ := evalArg_shape a f rest
+    obtain ⟨o2, ho2⟩ := evalArgs_shape r { f with offset := o } rest
     exact ⟨o2, by simp [evalArgs, ho, ho2]⟩
 end
 
 def LevelOK (lv : Level) : Prop :=
-  lv.form ≠ .other ∧ lv.via ≠ .implicit ∧ lv.via ≠ .evalDirect ∧ Spec.hasEval lv.pre = false ∧
-    Spec.argsHasEval lv.args = false
+  lv.form ≠ .other ∧ lv.via ≠ .implicit ∧ lv.via ≠ .evalDirect
 
 theorem atvOf_recorded (fm : Form) (off : Int) (h : fm ≠ .other) : atvOf fm off = off := by
   cases fm <;> simp_all [atvOf]
@@ -123,9 +125,9 @@ theorem stack_shape (ls : List Level) : ∀ (top : Frame) (fl : Nat) (rest : Sta
     intro top fl rest cur hf hall
     have hlv : LevelOK lv := hall lv (by simp)
     have hls : ∀ l ∈ ls, LevelOK l := fun l hl => hall l (by simp [hl])
-    obtain ⟨hform, hvia, hvia2, hev, hae⟩ := hlv
-    obtain ⟨o1, ho1⟩ := runPre_noEval lv.pre top rest hev
-    obtain ⟨o, ho⟩ := evalArgs_noEval lv.args { top with offset := o1 } rest hae
+    obtain ⟨hform, hvia, hvia2⟩ := hlv
+    obtain ⟨o1, ho1⟩ := runPre_shape lv.pre top rest
+    obtain ⟨o, ho⟩ := evalArgs_shape lv.args { top with offset := o1 } rest
     rw [show ({ ({ top with offset := o1 } : Frame) with offset := o } : Frame) = { top with offset := o } from rfl] at ho
     have htop : ({ top with offset := lv.off } : Frame) = frameOfAct { name := top.callee, native := top.native, file := fl, cur := lv.off } := by
       cases top; simp_all [FileOK, frameOfAct]
@@ -228,11 +230,10 @@ theorem innerAct_cur (ls : List Level) : ∀ (name : String) (native : Bool) (fl
     contained and whatever ran before it in the frame.  (The assignment `rt.scope.frame.offset = int(atv)` comes
     after argument evaluation, immediately before `call`.) -/
 theorem call_site_after_args (lv : Level) (f : Frame) (rest : Stack)
-    (hform : lv.form ≠ .other) (hvia : lv.via = .direct ∨ lv.via = .construct ∨ lv.via = .bound)
-    (hpre : Spec.hasEval lv.pre = false) (hargs : Spec.argsHasEval lv.args = false) :
+    (hform : lv.form ≠ .other) (hvia : lv.via = .direct ∨ lv.via = .construct ∨ lv.via = .bound) :
     enterLevel lv (f :: rest) = nodeFrame lv.name lv.file :: { f with offset := lv.off } :: rest := by
-  obtain ⟨o1, ho1⟩ := runPre_noEval lv.pre f rest hpre
-  obtain ⟨o, ho⟩ := evalArgs_noEval lv.args { f with offset := o1 } rest hargs
+  obtain ⟨o1, ho1⟩ := runPre_shape lv.pre f rest
+  obtain ⟨o, ho⟩ := evalArgs_shape lv.args { f with offset := o1 } rest
   rcases hvia with h | h | h <;>
     simp [enterLevel, ho1, ho, h, setTopOffset_cons, atvOf_recorded _ _ hform]
 
@@ -272,13 +273,7 @@ theorem cons_walkOuter (x : Frame) (T : Stack) (limit : Int) (h : ∀ f ∈ T, n
     have h2 : ((n : Int) + 1).toNat = n + 1 := by omega
     simp [Spec.applyLimit, h1, h2]
 
-/-- the region predicate for one activation: its position is computed in a `clean` prefix -/
-def posOK (files : List FileEnt) (a : Spec.Act) : Prop :=
-  a.native = true ∨ match files[a.file]? with
-    | some fe => Spec.cleanAt fe.src (a.cur - 1) = true
-    | none => True
-
-theorem loc_act (files : List FileEnt) (a : Spec.Act) (h : posOK files a) :
+theorem loc_act (files : List FileEnt) (a : Spec.Act) :
     location files (frameOfAct a) = Spec.actOut files a := by
   cases hn : a.native with
   | true => simp [location, frameOfAct, Spec.actOut, hn]
@@ -287,10 +282,8 @@ theorem loc_act (files : List FileEnt) (a : Spec.Act) (h : posOK files a) :
     cases hf : files[a.file]? with
     | none => rfl
     | some fe =>
-      have hc : Spec.cleanAt fe.src (a.cur - 1) = true := by
-        simpa [posOK, hn, hf] using h
       simp only []
-      rw [position_lf fe.src a.cur hc]
+      rw [position_spec fe.src a.cur]
       cases Spec.positionAt fe.src (a.cur - 1) with
       | none => rfl
       | some p => rfl
@@ -301,33 +294,28 @@ theorem applyLimit_map {α β : Type} (g : α → β) (limit : Int) (l : List α
   split <;> simp [List.map_take]
 
 theorem trace_complete_partial (files : List FileEnt) (limit : Int) (sc : Scenario)
-    (hdev : Spec.traceDevs files sc = [])
+    (hdev : Spec.traceDevs sc = [])
     (hoff : ∀ lv ∈ sc.levels, 0 ≤ lv.off) :
     trace files limit sc = Spec.trace files limit sc := by
   -- unpack the region predicates
   simp only [Spec.traceDevs, List.append_eq_nil_iff] at hdev
-  obtain ⟨⟨⟨⟨h1, h2⟩, h3⟩, h4⟩, h5⟩ := hdev
+  obtain ⟨⟨⟨h1, h2⟩, h3⟩, h4⟩ := hdev
   have h1 : Spec.devUnrecorded sc = false := by cases h : Spec.devUnrecorded sc <;> simp_all
   have h2 : Spec.devImplicit sc = false := by cases h : Spec.devImplicit sc <;> simp_all
-  have h3 : Spec.devEvalFile sc = false := by cases h : Spec.devEvalFile sc <;> simp_all
+  have h3 : Spec.devDirectEvalFrame sc = false := by cases h : Spec.devDirectEvalFrame sc <;> simp_all
   have h4 : Spec.devErrPos sc = false := by cases h : Spec.devErrPos sc <;> simp_all
-  have h5 : Spec.devPositionCR files sc = false := by cases h : Spec.devPositionCR files sc <;> simp_all
   have hlv : ∀ lv ∈ sc.levels, LevelOK lv := by
     intro lv hm
     simp only [Spec.devUnrecorded, List.any_eq_false] at h1
     simp only [Spec.devImplicit, List.any_eq_false] at h2
-    simp only [Spec.devEvalFile, Bool.or_eq_false_iff, List.any_eq_false] at h3
+    simp only [Spec.devDirectEvalFrame, List.any_eq_false] at h3
     have a1 := h1 lv hm
     have a2 := h2 lv hm
-    have a3 := h3.1 lv hm
-    refine ⟨?_, ?_, ?_, ?_, ?_⟩
+    have a3 := h3 lv hm
+    refine ⟨?_, ?_, ?_⟩
     · intro hf; simp_all
     · intro hv; simp_all
     · intro hv; simp_all
-    · simp_all
-    · simp_all
-  have hpre : Spec.hasEval sc.pre = false := by
-    simp only [Spec.devEvalFile, Bool.or_eq_false_iff] at h3; exact h3.2
   -- the scope chain at the raising construct
   have hS : ∀ cur, setTopOffset cur (enterLevels sc.levels (globalStack 0)) =
       frameOfAct (innerAct "" false 0 sc.levels cur) :: (outerActs "" false 0 sc.levels).reverse.map frameOfAct := by
@@ -341,19 +329,6 @@ theorem trace_complete_partial (files : List FileEnt) (limit : Int) (sc : Scenar
     obtain ⟨a, ha, rfl⟩ := hf
     have := outerActs_nonneg sc.levels "" false 0 hoff a ha
     simpa [nonneg, frameOfAct] using this
-  -- positions of every expected frame are computed alike
-  have hpos : ∀ a ∈ Spec.acts "" false 0 sc.levels (Spec.raiseOff sc.raise), posOK files a := by
-    intro a ha
-    simp only [Spec.devPositionCR, List.any_eq_false] at h5
-    have := h5 a ha
-    unfold posOK
-    cases hn : a.native with
-    | true => left; rfl
-    | false =>
-      right
-      cases hf : files[a.file]? with
-      | none => trivial
-      | some fe => simp_all
   have hinner : (innerAct "" false 0 sc.levels (Spec.raiseOff sc.raise)).native = Spec.innermostNative sc.levels := by
     rw [innerAct_native]; rfl
   -- shape of the spec side
@@ -364,12 +339,10 @@ theorem trace_complete_partial (files : List FileEnt) (limit : Int) (sc : Scenar
       List.cons_append, List.map_cons, List.map_map]
     congr 2
     · rw [loc_act]
-      exact hpos _ (by simp [acts_split])
     · apply List.map_congr_left
-      intro a ha
+      intro a _
       simp only [Function.comp]
       rw [loc_act]
-      exact hpos _ (by simp only [acts_split]; simp at ha; simp [ha])
   -- the code side: head frame (possibly with a different offset when native) followed by the walk
   have hcode : ∃ x : Frame, location files x =
         location files (frameOfAct (innerAct "" false 0 sc.levels (Spec.raiseOff sc.raise))) ∧
@@ -385,7 +358,7 @@ theorem trace_complete_partial (files : List FileEnt) (limit : Int) (sc : Scenar
         rw [hSt, setTopOffset_cons] at this
         exact List.cons.inj this
       have hrest := (hS' 0).2
-      obtain ⟨o, ho⟩ := runPre_noEval sc.pre f rest hpre
+      obtain ⟨o, ho⟩ := runPre_shape sc.pre f rest
       simp only [traceFrames, raiseTrace, hSt, ho]
       cases hr : sc.raise with
       | withAt off =>
@@ -463,7 +436,7 @@ theorem trace_limit_zero_unlimited (f : Frame) (outer : Stack) (limit : Int) (h 
 example :
     let src : Src := [102, 117, 110, 99, 116, 105, 111, 110, 32, 103, 40, 41, 123, 32, 122, 122, 122, 32, 125, 10, 118, 97, 114, 32, 111, 32, 61, 32, 123, 109, 58, 32, 102, 117, 110, 99, 116, 105, 111, 110, 32, 102, 40, 41, 123, 32, 103, 40, 41, 32, 125, 125, 10, 111, 46, 109, 40, 41]  -- 'function g(){ zzz }\nvar o = {m: function f(){ g() }}\no.m()'
     let sc : Scenario := { levels := [⟨.direct, .dot, "f", 54, [], 0, .nil⟩, ⟨.direct, .ident, "g", 47, [], 0, .nil⟩], pre := [], raise := .withAt 15 }
-    Spec.traceDevs [⟨"", src⟩] sc = [] ∧
+    Spec.traceDevs sc = [] ∧
     trace [⟨"", src⟩] 10 sc =
       [⟨"g", .at "<anonymous>" 1 15⟩, ⟨"f", .at "<anonymous>" 2 27⟩, ⟨"", .at "<anonymous>" 3 1⟩] := by
   decide
@@ -472,7 +445,7 @@ example :
 example :
     let src : Src := [102, 117, 110, 99, 116, 105, 111, 110, 32, 102, 40, 41, 123, 32, 40, 102, 117, 110, 99, 116, 105, 111, 110, 40, 41, 123, 32, 122, 122, 122, 32, 125, 41, 40, 41, 32, 125, 10, 102, 40, 41]  -- 'function f(){ (function(){ zzz })() }\nf()'
     let sc : Scenario := { levels := [⟨.direct, .ident, "f", 39, [], 0, .nil⟩, ⟨.direct, .other, "", 16, [], 0, .nil⟩], pre := [], raise := .withAt 28 }
-    Spec.traceDevs [⟨"", src⟩] sc = ["trace_unrecorded_callee"] ∧
+    Spec.traceDevs sc = ["trace_unrecorded_callee"] ∧
     trace [⟨"", src⟩] 10 sc ≠ Spec.trace [⟨"", src⟩] 10 sc := by
   decide
 
@@ -480,23 +453,32 @@ example :
 example :
     let src : Src := [118, 97, 114, 32, 111, 32, 61, 32, 123, 103, 101, 116, 32, 120, 40, 41, 123, 32, 122, 122, 122, 59, 32, 125, 125, 59, 10, 102, 117, 110, 99, 116, 105, 111, 110, 32, 102, 40, 41, 123, 32, 111, 46, 120, 59, 32, 125, 10, 102, 40, 41, 59]  -- 'var o = {get x(){ zzz; }};\nfunction f(){ o.x; }\nf();'
     let sc : Scenario := { levels := [⟨.direct, .ident, "f", 49, [], 0, .nil⟩, ⟨.implicit, .other, "", 42, [], 0, .nil⟩], pre := [], raise := .withAt 19 }
-    Spec.traceDevs [⟨"", src⟩, ⟨"", [0x31]⟩] sc = ["trace_implicit_call"] ∧
+    Spec.traceDevs sc = ["trace_implicit_call"] ∧
     trace [⟨"", src⟩, ⟨"", [0x31]⟩] 10 sc ≠ Spec.trace [⟨"", src⟩, ⟨"", [0x31]⟩] 10 sc := by
   decide
 
-/-- Dev `trace_eval_file: after a direct eval the positions in f are looked up in the eval source`. -/
+/-- a completed direct eval no longer disturbs the frame: positions after it are found in the function's own file -/
 example :
     let src : Src := [102, 117, 110, 99, 116, 105, 111, 110, 32, 102, 40, 41, 123, 32, 101, 118, 97, 108, 40, 34, 49, 34, 41, 59, 10, 32, 122, 122, 122, 59, 32, 125, 10, 102, 40, 41, 59]  -- 'function f(){ eval("1");\n zzz; }\nf();'
     let sc : Scenario := { levels := [⟨.direct, .ident, "f", 34, [], 0, .nil⟩], pre := [.directEval 15 1], raise := .withAt 27 }
-    Spec.traceDevs [⟨"", src⟩, ⟨"", [0x31]⟩] sc = ["trace_eval_file"] ∧
-    trace [⟨"", src⟩, ⟨"", [0x31]⟩] 10 sc ≠ Spec.trace [⟨"", src⟩, ⟨"", [0x31]⟩] 10 sc := by
+    Spec.traceDevs sc = [] ∧
+    trace [⟨"", src⟩, ⟨"", [0x31]⟩] 10 sc = [⟨"f", .at "<anonymous>" 2 2⟩, ⟨"", .at "<anonymous>" 3 1⟩] := by
+  decide
+
+/-- Dev `trace_direct_eval_frame`: code running inside a direct eval has no frame of its own; it is reported under
+    the caller's name and the position of the `eval(…)` call is not in the trace. -/
+example :
+    let src : Src := [102, 117, 110, 99, 116, 105, 111, 110, 32, 102, 40, 41, 123, 32, 101, 118, 97, 108, 40, 34, 122, 122, 122, 59, 34, 41, 59, 32, 125, 10, 102, 40, 41, 59]  -- 'function f(){ eval("zzz;"); }\nf();'
+    let sc : Scenario := { levels := [⟨.direct, .ident, "f", 31, [], 0, .nil⟩, ⟨.evalDirect, .ident, "", 15, [], 2, .nil⟩], pre := [], raise := .withAt 1 }
+    Spec.traceDevs sc = ["trace_direct_eval_frame"] ∧
+    trace [⟨"", src⟩, ⟨"", [0x31]⟩, ⟨"", [122, 122, 122, 59]⟩] 10 sc ≠ Spec.trace [⟨"", src⟩, ⟨"", [0x31]⟩, ⟨"", [122, 122, 122, 59]⟩] 10 sc := by
   decide
 
 /-- Dev `errpos_no_at: instanceof on a non-object reports no position`. -/
 example :
     let src : Src := [102, 117, 110, 99, 116, 105, 111, 110, 32, 102, 40, 41, 123, 10, 32, 32, 49, 32, 105, 110, 115, 116, 97, 110, 99, 101, 111, 102, 32, 50, 59, 32, 125, 10, 102, 40, 41, 59]  -- 'function f(){\n  1 instanceof 2; }\nf();'
     let sc : Scenario := { levels := [⟨.direct, .ident, "f", 35, [], 0, .nil⟩], pre := [], raise := .bare 17 }
-    Spec.traceDevs [⟨"", src⟩, ⟨"", [0x31]⟩] sc = ["errpos_no_at"] ∧
+    Spec.traceDevs sc = ["errpos_no_at"] ∧
     trace [⟨"", src⟩, ⟨"", [0x31]⟩] 10 sc ≠ Spec.trace [⟨"", src⟩, ⟨"", [0x31]⟩] 10 sc := by
   decide
 
